@@ -104,7 +104,7 @@ func (QSubScenario) Execute(sim *sched.Sim, ci interface{}, prop string, race bo
 		sim.Optional[p] = true
 	}
 	sim.RoleOf = roleOf
-	sim.Canon = newCanon().canon
+	useCanon(sim)
 	dir := tempDBDir()
 	defer os.RemoveAll(dir)
 	db := openBadger(dir)
@@ -139,7 +139,10 @@ func (QSubScenario) Execute(sim *sched.Sim, ci interface{}, prop string, race bo
 	// ordinary resource over the whole index
 	m.svc.Handle("items", res.Collection, store.QueryHandler{QueryStore: qs, Transformer: trans})
 	// ordinary resources parameterised by key prefix
-	affected := func(p res.Pattern, qc store.QueryChange) []string {
+	// (a resource that no handler serves is only put into the list of the
+	// ordinary resource, which skips it; for a query resource the handler
+	// treats it as a programming error and panics)
+	affected := func(p res.Pattern, qc store.QueryChange, bogus bool) []string {
 		seen := map[string]bool{}
 		var out []string
 		for _, v := range []interface{}{qc.Before(), qc.After()} {
@@ -155,7 +158,7 @@ func (QSubScenario) Execute(sim *sched.Sim, ci interface{}, prop string, race bo
 				}
 			}
 		}
-		if c.Bogus {
+		if bogus {
 			out = append(out, "test.unserved."+qc.ID())
 		}
 		return out
@@ -164,7 +167,7 @@ func (QSubScenario) Execute(sim *sched.Sim, ci interface{}, prop string, race bo
 		RequestHandler: func(rname string, pp map[string]string) (url.Values, error) {
 			return url.Values{"p": {pp["p"]}}, nil
 		},
-		AffectedResources: affected})
+		AffectedResources: func(p res.Pattern, qc store.QueryChange) []string { return affected(p, qc, c.Bogus) }})
 	// query resources parameterised by key prefix: the query extends the
 	// prefix (the normalized query does not contain the path parameter)
 	m.svc.Handle("under.$p", res.Collection, store.QueryHandler{QueryStore: qs, Transformer: trans,
@@ -172,7 +175,7 @@ func (QSubScenario) Execute(sim *sched.Sim, ci interface{}, prop string, race bo
 			x := q.Get("x")
 			return url.Values{"p": {pp["p"] + x}}, "x=" + x, nil
 		},
-		AffectedResources: affected})
+		AffectedResources: func(p res.Pattern, qc store.QueryChange) []string { return affected(p, qc, false) }})
 	// query resource
 	m.svc.Handle("search", res.Collection, store.QueryHandler{QueryStore: qs, Transformer: trans,
 		QueryRequestHandler: func(rname string, pp map[string]string, q url.Values) (url.Values, string, error) {
